@@ -60,6 +60,7 @@ def run(ctx):
             seconds = units.plant_all(ds1, ns, rng)
             if not seconds: continue
             fk2, c2, ds2 = rng.choice(seconds)
+            if fk2 == fk1 and fk1.startswith('subrange'): continue   # swapping the limits twice restores the valid unit
             cases.append({'kind': 'double', 'faults': (fk1, fk2), 'expect': [c1, c2], 'decls': ds2})
     for c in cases:
         nf = rng.choice([1, 1, 2, 3])
